@@ -359,5 +359,5 @@ RULES = [
     Rule('C03.R4', 'message/code agreement with the X12 code meanings', r4_codes, floor=15),
     Rule('C03.R5', 'shared with C15.R3/R6: length atoms measure the right string with the right code; delegated checks always run', r5_shared_element_checks, floor=19),
     Rule('C03.R6', 'shared with C02.R5: walker counting/ordering atoms (pending mandatory nodes are reported, limits, positions)', r6_shared_walker, floor=10),
-    Rule('C03.R7', 'shared with C14.R3/R4: syntax-note semantics and routing', r7_shared_syntax, floor=15),
+    Rule('C03.R7', 'shared with C14.R3/R4: syntax-note semantics and routing', r7_shared_syntax, floor=8),
 ]
